@@ -1,6 +1,7 @@
 import OpusProofs.SilkApi
 import OpusProofs.SilkApiStereo
 import OpusProofs.SilkApiOut
+import OpusProofs.SilkApiWhole
 /-!
   C01 (decoding is total and memory-safe) — extension slice `SilkApi`: the control layer of the SILK decoder
   (silk/dec_API.c, silk/decoder_set_fs.c, silk/stereo_MS_to_LR.c) inside the model.  Model: OpusModel/SilkApi.lean,
@@ -80,5 +81,41 @@ theorem msToLR_outputs_int16 (st : Stereo) (x1 x2 : List Int) (p0 p1 fs N : Int)
   ⟨(msToLR_length ..).1, (msToLR_length ..).2, fun k h1 h2 v h => h.elim (msToLR_x1_in16 _ _ _ _ _ _ _ k h1 h2 v) (msToLR_x2_in16 _ _ _ _ _ _ _ k h1 h2 v)⟩
 
 example : (msToLR {} [0, 0, 30000, 30000, 0, 0] [0, 0, 30000, -30000, 0, 0] 0 0 0 2).x1 = [0, 0, 32767, 30000, 0, 0] := by decide
+
+/-- C01's silk_Decode oracle contract as a theorem (lean/OpusModel/DecSkel/Spec.lean `OracleOk.silk`: for `SilkArgsOk a`,
+    silk_ret = 0 and *nSamplesOut = silkSamples a = 10 or 20 ms at the API rate; `EvOk (.silk a p ret n)`: exactly
+    n*nChannelsAPI samples at p).  For every decoder state satisfying the invariant (with nChannelsInternal <= 2), every
+    argument tuple in `ArgsOk` (= DecSkel's SilkArgsOk, plus payloadSize_ms = 0, the constant API rate and the packet
+    protocol of opus_decode_frame) and oracles (silk_decode_frame, silk_resampler) within their contracts, silk_Decode
+    reaches no celt_assert of the modelled code (ok), takes no error exit (err = none: SILK_DEC_INVALID_FRAME_SIZE and
+    SILK_DEC_INVALID_SAMPLING_FREQUENCY are unreachable), returns 0 [discharges `(o.silk k a).1 = 0`], sets
+    nSamplesOut = nb_subfr * 5 ms * Fs_API with nb_subfr in {2,4} of the configuration in force [discharges
+    `(o.silk k a).2.1 = silkSamples a`: nb_subfr = 2 exactly for the 10 ms payload of the packet, cfgChan_configures],
+    writes a samplesOut of exactly nSamplesOut*nChannelsAPI samples [the extent in EvOk], and preserves the invariant.
+    Not discharged: the third field (ec_tell >= 1 after a non-lost call), which belongs to the range decoder. -/
+theorem silkDecode_contract {api : Int} {d : Dec} {a : Args} {o : Orc} (hI : Inv api d) (hN : d.nChannelsInternal ≤ 2)
+    (hA : ArgsOk api d a) (hO : CallOrcOk api d a o) :
+    (silkDecode d a o).ok = true ∧ (silkDecode d a o).err = none ∧ (silkDecode d a o).ret = 0 ∧
+    (silkDecode d a o).nSamplesOut = (silkDecode d a o).d.ch0.nb_subfr * (api / 200) ∧
+    ((silkDecode d a o).d.ch0.nb_subfr = 2 ∨ (silkDecode d a o).d.ch0.nb_subfr = 4) ∧
+    Inv api (silkDecode d a o).d ∧ (silkDecode d a o).d.nChannelsInternal ≤ 2 ∧
+    (silkDecode d a o).out.length = ((silkDecode d a o).nSamplesOut * a.nChannelsAPI).toNat :=
+  silkDecode_ok hI hN hA hO
+
+/-- ... for every call history: starting from any state satisfying the invariant (e.g. after silk_InitDecoder on the
+    zero-filled OpusDecoder), after any sequence of silk_Decode calls (each with arguments legal for the state it meets and
+    oracles within contract) and silk_InitDecoder / silk_ResetDecoder calls, the invariant holds, and EVERY silk_Decode
+    call of the history returned 0 without assertion, with nSamplesOut = nb_subfr*5 ms*Fs_API and exactly
+    nSamplesOut*nChannelsAPI output samples. -/
+theorem silkDecode_history {api : Int} (l : List Step) (d : Dec) (hI : Inv api d) (hN : d.nChannelsInternal ≤ 2)
+    (h : HistOk api d l) : Inv api (runHistory d l) ∧ (runHistory d l).nChannelsInternal ≤ 2 ∧ HistRet api d l :=
+  history_ok l d hI hN h
+
+/-- non-vacuity: a lost 10 ms mono call at 8 kHz on a fresh decoder (80 zero samples from both oracles), then a reset -/
+example : HistOk 8000 {} [.dec ⟨1, 1, 8000, 8000, 10, 1, 1⟩ { frame0 := { samples := List.replicate 80 0 }, frame1 := { samples := List.replicate 80 0 }, rs := [(0, List.replicate 80 0), (0, List.replicate 80 0)] }, .reset] := by
+  refine ⟨by simp [ArgsOk, ApiOk], ?_, trivial⟩
+  unfold CallOrcOk OrcOk
+  refine ⟨rfl, rfl, by decide, by decide, ?_, ?_, rfl, rfl, by decide, by decide⟩ <;>
+    (intro v hv; rw [List.eq_of_mem_replicate hv]; simp [In16])
 
 end OpusProps.C01SilkApi
